@@ -100,7 +100,7 @@ PROPS = {
             "functools.lru_cache (if used) is a process-wide memo keyed by the argument tuple",
             "what a view contains is C06's business (ParameterNodeAtInstant.__init__, Parameter._get_at_instant)",
         ],
-        "not_decided": ["element-wise reads through vector indexing (VectorialParameterNodeAtInstant, as-of-date variant): numpy record arrays are outside the array algebra; not under contract in this version"],
+        "not_decided": ["vector indexing by enum members or non-string keys, vector indexing whose result is a group, the as-of-date vectorial variant"],
     },
     "C10": {
         "theories": ["groups: N persons, count groups, eid: [0,N) -> [0,count) (all symbolic); aggregates are reduction nodes compared pointwise on (group id, weight) per person"],
